@@ -448,6 +448,11 @@ class Sparsify(EnvironmentFilter):
             if self._action and 'actions' in new:
                 new['actions'] = list(map(self._make_sparse,new['actions'],repeat(actions_has_headers),repeat('action')))
 
+                if new['actions'] != interaction['actions']:
+                    for target in ['rewards','feedbacks']:
+                        if callable(new.get(target)):
+                            new[target] = DiscreteReward(new['actions'],list(map(new[target],interaction['actions'])))
+
             if self._action and 'action' in new:
                 new['action'] = self._make_sparse(new['action'],action_has_headers,'action')
 
@@ -525,6 +530,11 @@ class Densify(EnvironmentFilter):
 
             if self._action and 'actions' in new:
                 new['actions'] = list(map(self._make_dense,new['actions']))
+
+                if new['actions'] != interaction['actions']:
+                    for target in ['rewards','feedbacks']:
+                        if callable(new.get(target)):
+                            new[target] = DiscreteReward(new['actions'],list(map(new[target],interaction['actions'])))
 
             if self._action and 'action' in new:
                 new['action'] = self._make_dense(new['action'])
